@@ -190,11 +190,15 @@ def run(ctx):
     ctx.sample({"run": metas[-1]})
     # ---- beyond the listed properties: the covalent-coupling rule behind coupling_effects (notes only) ------
     real = []
-    for n in (["3SGB-subset", "1HPX", "4DFR", "3SGB"] if ctx.thorough() else ["3SGB-subset", "1HPX"]):
+    for n in (["3SGB-subset", "1HPX", "4DFR"] if ctx.thorough() else ["3SGB-subset", "1HPX"]):
         r = runner.run(corpus.test_pdb_text(n), ["-q"])
         if r.exc is None:
             real.append((n, r.mol))
-    covcoupling.run(ctx, real)
+    try:
+        covcoupling.run(ctx, real)
+    except tlc.TLCError as ex:
+        # (this part only writes notes: a TLC run that does not finish in its time limit on a loaded machine is a note too)
+        ctx.note("BEYOND-PROPERTIES: the covalent-coupling part did not complete: " + str(ex).splitlines()[0][:200])
 
 
 def replay(ctx, path):
